@@ -35,6 +35,9 @@ var asaUnmanaged = []string{
 	"object-group network g1\n network-object host 10.1.1.10\n network-object host 10.1.1.11\naccess-list manual3 extended permit ip object-group g1 any4\n",
 	// interface unknown to Netspoc with access-groups in both directions
 	"interface Ethernet0/5\n nameif dmz3\naccess-list dmz3_in extended permit ip host 10.5.5.31 any4\naccess-list dmz3_out extended permit ip host 10.5.5.32 any4\naccess-group dmz3_in in interface dmz3\naccess-group dmz3_out out interface dmz3\n",
+	// access-group of an unknown interface with a trailing keyword
+	"interface Ethernet0/6\n nameif dmz4\naccess-list dmz4_in-DRC-0 extended permit ip host 10.5.5.41 any4\naccess-group dmz4_in-DRC-0 in interface dmz4 per-user-override\n",
+	"interface Ethernet0/7\n nameif dmz5\naccess-list dmz5_cp-DRC-0 extended permit ip host 10.5.5.51 any4\naccess-group dmz5_cp-DRC-0 in interface dmz5 control-plane\n",
 	// plain-named group-policy (two commands) re-using a generated filter
 	// ACL whose second line references a further generated group
 	"object-group network gm1-DRC-0\n network-object 10.0.5.0 255.255.255.0\nobject-group network gm2-DRC-0\n network-object 10.0.6.0 255.255.255.0\n" +
@@ -156,6 +159,49 @@ func frameSpaceIOSRoutes() *frameSpace {
 		}
 		return out.String()
 	}
+	return fs
+}
+
+// frameSpaceAAA: a managed tunnel-group that names an aaa-server which the
+// administrator maintains by hand.  The definition on the device (protocol
+// ldap / radius / tacacs+, one or two hosts, with or without attribute map)
+// never has to look like the one in Netspoc's code; whatever happens to the
+// tunnel-group, the aaa-server and ldap attribute-map lines must stay.
+func frameSpaceAAA() *frameSpace {
+	devAAA := []string{
+		"aaa-server AUTH_KV protocol ldap\naaa-server AUTH_KV (inside) host 10.2.8.16\n ldap-attribute-map LDAPMAP\nldap attribute-map LDAPMAP\n map-name memberOf Group-Policy\n",
+		"aaa-server AUTH_KV protocol radius\naaa-server AUTH_KV (inside) host 10.2.8.16\n key *****\n authentication-port 1812\nldap attribute-map LDAPMAP\n map-name memberOf Group-Policy\n",
+		"aaa-server AUTH_KV protocol tacacs+\naaa-server AUTH_KV (inside) host 10.2.8.16\n key *****\naaa-server AUTH_KV (inside) host 10.2.8.17\n key *****\n",
+		"aaa-server AUTH_KV protocol ldap\naaa-server AUTH_KV (inside) host 10.2.8.16\n ldap-attribute-map OTHERMAP\nldap attribute-map OTHERMAP\n map-name memberOf Group-Policy\n map-value memberOf x y\nldap attribute-map LDAPMAP\n map-name memberOf Group-Policy\n",
+	}
+	tg := func(v int) string {
+		switch v {
+		case 0:
+			return ""
+		case 1:
+			return "crypto ca certificate map ca-map-G1 10\n subject-name attr cn co g1\ntunnel-group VPN-tunnel-G1 type remote-access\ntunnel-group VPN-tunnel-G1 general-attributes\n authentication-server-group AUTH_KV\n" +
+				"tunnel-group VPN-tunnel-G1 webvpn-attributes\n authentication aaa certificate\ntunnel-group-map ca-map-G1 10 VPN-tunnel-G1\n"
+		case 2:
+			return "crypto ca certificate map ca-map-G1 10\n subject-name attr cn co g1\ntunnel-group VPN-tunnel-G1 type remote-access\ntunnel-group VPN-tunnel-G1 general-attributes\n authentication-server-group AUTH_KV\n" +
+				"tunnel-group VPN-tunnel-G1 webvpn-attributes\n authentication certificate\ntunnel-group-map ca-map-G1 10 VPN-tunnel-G1\n"
+		}
+		return "crypto ca certificate map ca-map-G2 10\n subject-name attr cn co g2\ntunnel-group VPN-tunnel-G2 type remote-access\ntunnel-group VPN-tunnel-G2 general-attributes\n authentication-server-group AUTH_KV\n" +
+			"tunnel-group-map ca-map-G2 10 VPN-tunnel-G2\n"
+	}
+	tgtAAA := "aaa-server AUTH_KV protocol ldap\naaa-server AUTH_KV host X\n ldap-attribute-map LDAPMAP\nldap attribute-map LDAPMAP\n map-name memberOf Group-Policy\n"
+	acl := "access-list inside_in extended permit ip any4 any4\naccess-group inside_in in interface inside\n"
+	nd, nt := int64(len(devAAA)), int64(4)
+	fs := &frameSpace{}
+	fs.name, fs.model, fs.n = "aaa", "ASA", nd*nt*nt
+	fs.gen = func(i int64) (core.Files, core.Files) {
+		d, dv, tv := i%nd, int(i/nd%nt), int(i/nd/nt)
+		tgt := tg(tv) + acl
+		if tv != 0 {
+			tgt = tgtAAA + tgt
+		}
+		return core.Files{Main: asaIntf + devAAA[d] + tg(dv) + acl}, core.Files{Main: tgt}
+	}
+	fs.unmanaged = func(i int64) string { return devAAA[i%nd] }
 	return fs
 }
 
@@ -288,6 +334,7 @@ func c07Worker(ctx *core.Ctx) *core.Result {
 	x.runFrame(fi, fa.n)
 	x.runFrame(frameSpaceSharedGroup(), fa.n+fi.n)
 	x.runFrame(frameSpaceIOSRoutes(), fa.n+fi.n+1000000)
+	x.runFrame(frameSpaceAAA(), fa.n+fi.n+2000000)
 	// PAN-OS: everything outside the targeted vsys
 	px := &panx{ctx: ctx, res: x.res, sc: x.sc, prop: "C07", frame: true, seen: map[string]struct{}{}}
 	px.run([]*panSpace{panVsysSpace(), panFrameSpace()})
@@ -321,7 +368,7 @@ func panFrameSpace() *panSpace {
 func init() {
 	registerSharded("C07", c07Worker, func(tier string) core.Meta {
 		return core.Meta{ID: "C07", Level: "model_checking",
-			Rule: "states = distinct device-model states; device states = managed ACL pair space (len<=2 over 5 lines incl. group references) x all subsets of up to 2 (thorough 4) unmanaged items from an alphabet of 12 ASA / 8 IOS items (plain-named group-policy and tunnel-group chains through two-command objects down to generated filter ACLs, groups and pools, unbound plain-named ACL, group used only by it, group shared with a managed ACL, unknown interfaces - shutdown or not - with ACLs, groups and crypto maps carrying generated names, routes of other family/VRF, unmodelled lines, aaa-server/ldap map, gdoi crypto map); IOS routes: devices with interfaces in three VRFs and every route subset, targets with routes for some VRFs only (routes of the other VRFs must stay); PAN-OS: two-vsys devices, target addressing one; transition = real planner; after every executed command every unmanaged entry must still be present with identical text and sub-commands (PAN-OS: the XML outside the targeted vsys is byte-identical); non-trivial = script non-empty. NSX (objects without the Netspoc prefix) is filtered while reading the manager and is therefore checked end to end by the dialogue engine (C11/C09 simulators), not here",
+			Rule: "states = distinct device-model states; device states = managed ACL pair space (len<=2 over 5 lines incl. group references) x all subsets of up to 2 (thorough 4) unmanaged items from an alphabet of 14 ASA / 8 IOS items (plain-named group-policy and tunnel-group chains through two-command objects down to generated filter ACLs, groups and pools, unbound plain-named ACL, group used only by it, group shared with a managed ACL, unknown interfaces - shutdown or not - with ACLs (also bound with per-user-override or control-plane), groups and crypto maps carrying generated names, routes of other family/VRF, unmodelled lines, aaa-server/ldap map, gdoi crypto map); IOS routes: devices with interfaces in three VRFs and every route subset, targets with routes for some VRFs only (routes of the other VRFs must stay); space aaa: a managed tunnel-group naming a hand-maintained aaa-server whose definition differs from the one in the target (protocol, hosts, attribute map) x tunnel-group variants on both sides; PAN-OS: two-vsys devices, target addressing one; transition = real planner; after every executed command every unmanaged entry must still be present with identical text and sub-commands (PAN-OS: the XML outside the targeted vsys is byte-identical); non-trivial = script non-empty. NSX (objects without the Netspoc prefix) is filtered while reading the manager and is therefore checked end to end by the dialogue engine (C11/C09 simulators), not here",
 			Assumptions: []string{"unmanaged content is what the statement lists; the check knows exactly which lines it added as unmanaged"},
 			Bounds:      map[string]any{"quick": "<=2 unmanaged items", "thorough": "<=4 unmanaged items"},
 		}
